@@ -131,8 +131,11 @@ Proof.
   revert tp e0. induction D as [|d D IH]; intros tp e0 H; simpl in H; [discriminate|].
   destruct (b <=? ev_check (d_ev d))%N eqn:Eb.
   - destruct (settledD c tj b D) as [[tp0 e00]|] eqn:Es.
-    + destruct (same_ev e00 (d_ev d)); [|discriminate]. inversion H; subst.
-      destruct (IH _ _ eq_refl) as [H1 [nw H2]]. split; auto. exists nw. right. exact H2.
+    + destruct (IH _ _ eq_refl) as [H1 [nw H2]].
+      destruct (same_ev e00 (d_ev d)); [inversion H; subst; split; auto; exists nw; right; exact H2|].
+      destruct (ev_check (d_ev d) <? ev_check e00)%N; [inversion H; subst; split; auto; exists nw; right; exact H2|].
+      destruct (d_new d && within c tp0 (d_t d)); [|discriminate]. inversion H; subst.
+      split; [lia|]. exists (d_new d). left. destruct d as [[a1 a2] a3]; reflexivity.
     + destruct (dlow b D && d_new d && within c tj (d_t d)); [|discriminate]. inversion H; subst.
       split; [lia|]. exists (d_new d). left. destruct d as [[a1 a2] a3]; reflexivity.
   - destruct (IH _ _ H) as [H1 [nw H2]]. split; auto. exists nw. right. exact H2.
@@ -344,7 +347,10 @@ Proof.
       { intros tp e0 Hs. simpl in Hs. unfold d_ev, d_t, d_new in Hs; simpl in Hs.
         destruct (b <=? ev_check e)%N eqn:Eb.
         - destruct (settledD c tj b D) as [[tp0 e00]|] eqn:Es0.
-          + destruct (same_ev e00 e); [|discriminate]. inversion Hs; subst. exact (D4 _ _ eq_refl).
+          + destruct (same_ev e00 e); [inversion Hs; subst; exact (D4 _ _ eq_refl)|].
+            destruct (ev_check e <? ev_check e00)%N; [inversion Hs; subst; exact (D4 _ _ eq_refl)|].
+            destruct (nw && within c tp0 t) eqn:Econd; [|discriminate].
+            apply andb_true_iff in Econd as [Enw _]. rewrite (Fnw Enw) in Hx. discriminate.
           + destruct (dlow b D && nw && within c tj t) eqn:Econd; [|discriminate].
             apply andb_true_iff in Econd as [Econd _]. apply andb_true_iff in Econd as [_ Enw].
             rewrite (Fnw Enw) in Hx. discriminate.
@@ -359,7 +365,10 @@ Proof.
       { intros tp e0 Hs. simpl in Hs. unfold d_ev, d_t, d_new in Hs; simpl in Hs.
         destruct (b <=? ev_check e)%N eqn:Eb.
         - destruct (settledD c tj b D) as [[tp0 e00]|] eqn:Es0.
-          + destruct (same_ev e00 e); [|discriminate]. inversion Hs; subst. exact (D4 _ _ eq_refl).
+          + destruct (same_ev e00 e); [inversion Hs; subst; exact (D4 _ _ eq_refl)|].
+            destruct (ev_check e <? ev_check e00)%N; [inversion Hs; subst; exact (D4 _ _ eq_refl)|].
+            destruct (nw && within c tp0 t) eqn:Econd; [|discriminate].
+            apply andb_true_iff in Econd as [_ Ew]. destruct (D4t _ _ eq_refl) as [X _]. rewrite Ew, Hx in X. discriminate.
           + destruct (dlow b D && nw && within c tj t) eqn:Econd; [|discriminate].
             apply andb_true_iff in Econd as [Econd Ew]. apply andb_true_iff in Econd as [Edl _].
             rewrite (Bt Edl), Ew in Hx. discriminate.
@@ -377,12 +386,20 @@ Proof.
     split.
     { intros tp e0 Hs. simpl in Hs. unfold d_ev, d_t, d_new in Hs; simpl in Hs.
       destruct (b <=? ev_check e)%N eqn:Eb.
-      - exfalso. destruct (settledD c tj b D) as [[tp0 e00]|] eqn:Es0.
-        + destruct (same_ev e00 e) eqn:Esame; [|discriminate].
-          destruct (D4t _ _ eq_refl) as [X _]. rewrite Hr in X.
-          destruct (within c tp0 t); [|discriminate]. inversion X; subst v.
-          apply same_ev_rec in Esame as [Erec _]. unfold rec_of in Erec. inversion Erec. simpl in Hlt. lia.
-        + destruct (dlow b D && nw && within c tj t) eqn:Econd; [|discriminate].
+      - destruct (settledD c tj b D) as [[tp0 e00]|] eqn:Es0.
+        + destruct (same_ev e00 e) eqn:Esame.
+          * exfalso. destruct (D4t _ _ eq_refl) as [X _]. rewrite Hr in X.
+            destruct (within c tp0 t); [|discriminate]. inversion X; subst v.
+            apply same_ev_rec in Esame as [Erec _]. unfold rec_of in Erec. inversion Erec. simpl in Hlt. lia.
+          * destruct (ev_check e <? ev_check e00)%N eqn:Elow.
+            -- inversion Hs; subst tp e0. destruct (D4 _ _ eq_refl) as [X Y]. split; [exact X|]. intro Hw.
+               rewrite cget_csetV. destruct (vid_eqb (ev_id e00) (ev_id e)); [|auto].
+               rewrite Hlive. destruct (settled_bounds _ _ _ _ _ _ _ _ HD Es0) as [Htp _].
+               rewrite (within_mono c tp0 t now); auto. lia.
+            -- exfalso. destruct (nw && within c tp0 t) eqn:Econd; [|discriminate].
+               apply andb_true_iff in Econd as [_ Ew]. destruct (D4t _ _ eq_refl) as [X _]. rewrite Ew, Hr in X.
+               inversion X; subst v. simpl in Hlt. lia.
+        + exfalso. destruct (dlow b D && nw && within c tj t) eqn:Econd; [|discriminate].
           apply andb_true_iff in Econd as [Econd Ew]. apply andb_true_iff in Econd as [Edl _].
           rewrite (Bt Edl), Ew in Hr. inversion Hr; subst v. simpl in Hlt. lia.
       - destruct (D4 _ _ Hs) as [X Y]. split; [exact X|]. intro Hw.
@@ -404,10 +421,15 @@ Proof.
     { intros tp e0 Hs. simpl in Hs. unfold d_ev, d_t, d_new in Hs; simpl in Hs.
       destruct (b <=? ev_check e)%N eqn:Eb.
       - destruct (settledD c tj b D) as [[tp0 e00]|] eqn:Es0.
-        + exfalso. destruct (same_ev e00 e) eqn:Esame; [|discriminate].
-          destruct (D4t _ _ eq_refl) as [X Y]. rewrite Hr in X.
-          destruct (within c tp0 t); [|discriminate].
-          apply same_ev_rec in Esame as [_ Eid]. rewrite Eid in Hv. rewrite (Y eq_refl) in Hv. discriminate.
+        + destruct (same_ev e00 e) eqn:Esame.
+          * exfalso. destruct (D4t _ _ eq_refl) as [X Y]. rewrite Hr in X.
+            destruct (within c tp0 t); [|discriminate].
+            apply same_ev_rec in Esame as [_ Eid]. rewrite Eid in Hv. rewrite (Y eq_refl) in Hv. discriminate.
+          * destruct (ev_check e <? ev_check e00)%N eqn:Elow.
+            -- exfalso. destruct (D4t _ _ eq_refl) as [X _]. rewrite Hr in X.
+               destruct (within c tp0 t); [|discriminate]. inversion X; subst v. simpl in Hle. lia.
+            -- destruct (nw && within c tp0 t) eqn:Econd; [|discriminate]. inversion Hs; subst tp e0.
+               split; [reflexivity|]. intro Hw. rewrite cget_csetV, vid_eqb_refl, Hlive, Hw. reflexivity.
         + destruct (dlow b D && nw && within c tj t) eqn:Econd; [|discriminate]. inversion Hs; subst tp e0.
           split; [reflexivity|]. intro Hw. rewrite cget_csetV, vid_eqb_refl, Hlive, Hw. reflexivity.
       - exfalso. destruct (D4t _ _ Hs) as [X _]. rewrite Hr in X.
